@@ -196,7 +196,8 @@ def select__let_expression(self: XPathToken, context: ta.ContextType = None) \
 
     for k in range(0, len(self) - 1, 2):
         varname = cast(str, self[k][0].value)
-        value = self[k+1].evaluate(context)
+        # the binding expression must not change the focus of the return expression
+        value = self[k+1].evaluate(copy(context))
         context.variables[varname] = value
 
     yield from self[-1].select(context)
